@@ -81,7 +81,14 @@ func userFieldNames() []string {
 
 // userSDL builds the collection SDL. order permutes field order (a node
 // agreement precondition, not a claim of C13).
-func userSDL(colKind int, order int) string {
+// wideFillers: in "wide" plans the collection has this many more String fields (w01...), so that the short
+// ids of its fields reach two digits. The model does not follow their values; their blocks and heads are
+// part of the graph the C04 oracle scans.
+const wideFillers = 16
+
+func userSDL(colKind int, order int) string { return userSDLWide(colKind, order, false) }
+
+func userSDLWide(colKind int, order int, wide bool) string {
 	idx := make([]int, len(userFields))
 	for i := range idx {
 		idx[i] = i
@@ -108,6 +115,11 @@ func userSDL(colKind int, order int) string {
 			dir = " @index"
 		}
 		fmt.Fprintf(&b, "  %s: %s%s\n", f.Name, f.GQLType, dir)
+	}
+	if wide {
+		for k := 1; k <= wideFillers; k++ {
+			fmt.Fprintf(&b, "  w%02d: String\n", k)
+		}
 	}
 	b.WriteString("}\n")
 	return b.String()
